@@ -144,17 +144,29 @@ package fri
 //@        instance.Batches[b].Polynomials[k].OracleIndex < len(proof.EvalsProofs) &&
 //@        instance.Batches[b].Polynomials[k].PolynomialInfo < len(proof.EvalsProofs[instance.Batches[b].Polynomials[k].OracleIndex].Elements)))
 
+// friCombineInitial (plonky2 fri_combine_initial) for the two opening batches (zeta, g*zeta) of a plonky2 instance:
+//   sum_b = alpha^{n_b} * sum_{b-1} + (reduce(evals_b, alpha) - reduced_openings_b) / (x - point_b),  sum_{-1} = 0,
+// where evals_b are the queried leaf values named by the batch's polynomial list (lifted to GF(p^2)), reduce is
+// the Horner form of plonky2's ReducingFactor and n_b = len(evals_b).  The numerator is kept unreduced exactly as
+// the code does (a + b*(P-1), the same field element as a - b); the fused multiply-add reduces it.
+//@ def fci_evals_ok(e, proof, polys) = len(e) == len(polys) && forall(j, 0, len(polys), e[j] == tuple(proof.EvalsProofs[polys[j].OracleIndex].Elements[polys[j].PolynomialInfo], 0))
+//@ def fci_step(sum, alpha, e, open, x, point) = qe_muladdo(tuple(qe_horner(e, alpha, 0)[0] + open[0]*(P-1), qe_horner(e, alpha, 0)[1] + open[1]*(P-1)), qe_inv(qe_subo(x, point)),
+//@        qe_mulo(qe_pow_sm(alpha, tuple(1, 0), len(e), 0, bitlen(len(e))), sum))
 //@ func (f *Chip) friCombineInitial(instance InstanceInfo, proof variables.FriInitialTreeProof, friAlpha gl.QuadraticExtensionVariable, subgroupX_QE gl.QuadraticExtensionVariable, precomputedReducedEval []gl.QuadraticExtensionVariable) (res gl.QuadraticExtensionVariable)
-//@   props C05 C20
+//@   props C13 C05 C20
 //@   circuit
 //@   requires chipok(f.gl) && sameapi(f.api, f.api) && canonQE(friAlpha) && canonQE(subgroupX_QE) && canonQEs(precomputedReducedEval)
-//@   requires forall(b, 0, len(instance.Batches), canonQE(instance.Batches[b].Point))
+//@   requires len(instance.Batches) == 2 && forall(b, 0, len(instance.Batches), canonQE(instance.Batches[b].Point) && len(instance.Batches[b].Polynomials) <= pow2(41))
 //@   requires forall(i, 0, len(proof.EvalsProofs), canonSeq(proof.EvalsProofs[i].Elements))
 //@   complete_requires len(instance.Batches) == len(precomputedReducedEval) && polys_in_range(instance, proof)
 //@   honest forall(b, 0, len(instance.Batches), !(subgroupX_QE[0].Limb == instance.Batches[b].Point[0].Limb && subgroupX_QE[1].Limb == instance.Batches[b].Point[1].Limb))
+//@   ghost e0 []gl.QuadraticExtensionVariable = callarg("goldilocks.Chip.ReduceWithPowers", 0, 1)
+//@   ghost e1 []gl.QuadraticExtensionVariable = callarg("goldilocks.Chip.ReduceWithPowers", 1, 1)
 //@   ensures canonQE(res) && len(instance.Batches) == len(precomputedReducedEval)
-//@   loop 0 invariant 0 <= i && i <= len(instance.Batches) && canonQE(sum)
-//@   loop 1 invariant -1 <= rangeindex1 && rangeindex1 < len(batch.Polynomials) && canonQEs(evals)
+//@   ensures fci_evals_ok(e0, proof, instance.Batches[0].Polynomials) && fci_evals_ok(e1, proof, instance.Batches[1].Polynomials)
+//@   ensures res == fci_step(fci_step(tuple(0, 0), friAlpha, e0, precomputedReducedEval[0], subgroupX_QE, instance.Batches[0].Point), friAlpha, e1, precomputedReducedEval[1], subgroupX_QE, instance.Batches[1].Point)
+//@   loop 1 invariant -1 <= rangeindex1 && rangeindex1 < len(batch.Polynomials) && len(evals) == rangeindex1 + 1 && canonQEs(evals) &&
+//@        forall(k, 0, rangeindex1 + 1, evals[k] == tuple(proof.EvalsProofs[batch.Polynomials[k].OracleIndex].Elements[batch.Polynomials[k].PolynomialInfo], 0))
 
 //@ func assertNoncanonicalIndicesOK(friParams types.FriParams)
 //@   props C20
@@ -162,12 +174,47 @@ package fri
 //@   flag trusted
 //@   ensures true
 
+// ------------------------------------------------------------------ coset interpolation (C13)
+// barycentric interpolation as in plonky2's interpolate(): l(x) * sum_i y_i * w_i / (x - x_i), with
+// l(x) = prod_i (x - x_i).  A point x that is itself a domain point is rejected (DivExtension refuses zero, C08);
+// the reference returns y_i there - the two differ only on that set of betas.
+//@ recdef ip_lx(xs []QE, x QE, k int) QE = ite(k <= 0, tuple(1, 0), qe_submul(x, xs[k-1], ip_lx(xs, x, k - 1)))
+//@ recdef ip_sum(xs []QE, ys []QE, ws []QE, x QE, k int) QE = ite(k <= 0, tuple(0, 0), qe_add(qe_mul(ys[k-1], qe_div(ws[k-1], qe_sub(x, xs[k-1]))), ip_sum(xs, ys, ws, x, k - 1)))
+//@ func (f *Chip) interpolate(x gl.QuadraticExtensionVariable, xPoints []gl.QuadraticExtensionVariable, yPoints []gl.QuadraticExtensionVariable, barycentricWeights []gl.QuadraticExtensionVariable) (res gl.QuadraticExtensionVariable)
+//@   props C13 C05
+//@   circuit
+//@   requires chipok(f.gl) && canonQE(x) && canonQEs(xPoints) && canonQEs(yPoints) && canonQEs(barycentricWeights) && len(xPoints) <= 256
+//@   complete_requires len(xPoints) == len(yPoints) && len(xPoints) == len(barycentricWeights)
+//@   honest forall(k, 0, len(xPoints), !(x == xPoints[k]))
+//@   ensures len(xPoints) == len(yPoints) && len(xPoints) == len(barycentricWeights) && forall(k, 0, len(xPoints), !(x == xPoints[k]))
+//@   ensures canonQE(res)
+//@   ensures res == qe_mul(ip_lx(xPoints, x, len(xPoints)), ip_sum(xPoints, yPoints, barycentricWeights, x, len(xPoints)))
+//@   loop 0 invariant 0 <= i && i <= len(xPoints) && canonQE(lX) && lX == ip_lx(xPoints, x, i)
+//@   loop 1 invariant 0 <= i && i <= len(xPoints) && canonQE(sum) && sum == ip_sum(xPoints, yPoints, barycentricWeights, x, i) && lookupFromPoints == 1 && forall(k, 0, i, !(x == xPoints[k]))
+//@   loop 2 invariant 0 <= i && i <= len(xPoints) && canonQE(lookupVal)
+
+// computeEvaluation (arity 16): the evaluations are permuted by 4-bit reversal, the coset is  x * (g^-1)^rev(index) * g^i,
+// the weights are the inverses of  prod_{j != i} (x_i - x_j), and the result is the interpolant at beta.
+//@ def rev4(i) = (i % 2) * 8 + ((i / 2) % 2) * 4 + ((i / 4) % 2) * 2 + (i / 8) % 2
+//@ recdef bw_prod(xs []QE, i int, j int) QE = ite(j <= 0, tuple(1, 0), ite(j - 1 == i, bw_prod(xs, i, j - 1), qe_submulo(xs[i], xs[j-1], bw_prod(xs, i, j - 1))))
 //@ func (f *Chip) computeEvaluation(x gl.Variable, xIndexWithinCosetBits []frontend.Variable, arityBits uint64, evals []gl.QuadraticExtensionVariable, beta gl.QuadraticExtensionVariable) (res gl.QuadraticExtensionVariable)
-//@   props C05 C20
+//@   props C13 C05 C20
 //@   circuit sound-only
 //@   requires chipok(f.gl) && canon(x) && canonQE(beta) && canonQEs(evals)
 //@   requires arityBits == 4 && len(evals) == 16 && len(xIndexWithinCosetBits) == 4 && forall(k, 0, 4, isbit(xIndexWithinCosetBits[k]))
+//@   ghost g goldilocks.Element
+//@   ghost gInv goldilocks.Element
+//@   ghost revXIndexWithinCosetBits []frontend.Variable
+//@   ghost xPoints []gl.QuadraticExtensionVariable
+//@   ghost yPoints []gl.QuadraticExtensionVariable
+//@   ghost barycentricWeights []gl.QuadraticExtensionVariable
 //@   ensures canonQE(res)
+//@   ensures g == gl_sq_iter0(1753635133440165772, 28) && (g * gInv) % P == 1
+//@   ensures len(revXIndexWithinCosetBits) == 4 && forall(k, 0, 4, revXIndexWithinCosetBits[3 - k] == xIndexWithinCosetBits[k])
+//@   ensures len(yPoints) == 16 && forall(k, 0, 16, yPoints[rev4(k)] == evals[k])
+//@   ensures len(xPoints) == 16 && xPoints[0] == tuple((gl_ebits(revXIndexWithinCosetBits, gInv, 4) * x.Limb) % P, 0) && forall(k, 1, 16, xPoints[k] == qe_mul(xPoints[k-1], tuple(g, 0)))
+//@   ensures len(barycentricWeights) == 16 && forall(k, 0, 16, barycentricWeights[k] == qe_inv(bw_prod(xPoints, k, 16)))
+//@   ensures res == qe_mul(ip_lx(xPoints, beta, 16), ip_sum(xPoints, yPoints, barycentricWeights, beta, 16))
 
 //@ def params_ok(p) = params_small(p) && p.Config.CapHeight == 4 && p.DegreeBits + p.Config.RateBits <= 32 && 4 <= p.DegreeBits + p.Config.RateBits && 1 <= p.Config.ProofOfWorkBits && p.Config.ProofOfWorkBits <= 63
 
@@ -176,7 +223,7 @@ package fri
 //@   circuit sound-only
 //@   requires chipok(f.gl) && params_ok(f.friParams) && nLog == f.friParams.DegreeBits + f.friParams.Config.RateBits
 //@   requires canonQE(challenges.FriAlpha) && canonQEs(challenges.FriBetas) && canonQEs(precomputedReducedEval) && canonQEs(proof.FinalPoly.Coeffs)
-//@   requires forall(b, 0, len(instance.Batches), canonQE(instance.Batches[b].Point))
+//@   requires len(instance.Batches) == 2 && forall(b, 0, len(instance.Batches), canonQE(instance.Batches[b].Point) && len(instance.Batches[b].Polynomials) <= pow2(41))
 //@   requires canonRound(roundProof)
 //@   requires len(roundProof.Steps) == len(f.friParams.ReductionArityBits) && forall(i, 0, len(roundProof.Steps), len(roundProof.Steps[i].Evals) == pow2(f.friParams.ReductionArityBits[i]))
 //@   ghost idxBits []frontend.Variable = atentry(xIndexBits, 0)
@@ -197,7 +244,7 @@ package fri
 //@   circuit sound-only
 //@   requires chipok(f.gl) && params_ok(f.friParams) && oracles_small(instance)
 //@   requires canonQE(friChallenges.FriAlpha) && canonQEs(friChallenges.FriBetas) && canonOpeningBatches(openings) && fri_inputs_canon(friProof)
-//@   requires forall(b, 0, len(instance.Batches), canonQE(instance.Batches[b].Point))
+//@   requires len(instance.Batches) == 2 && forall(b, 0, len(instance.Batches), canonQE(instance.Batches[b].Point) && len(instance.Batches[b].Polynomials) <= pow2(41))
 //@   ensures[pow] friChallenges.FriPowResponse.Limb < pow2(64 - f.friParams.Config.ProofOfWorkBits)
 //@   ensures[shape] shape_fri(friProof, instance, f.friParams)
 //@   ensures[rounds] len(friProof.QueryRoundProofs) == f.friParams.Config.NumQueryRounds && len(friChallenges.FriQueryIndices) == len(friProof.QueryRoundProofs)
